@@ -224,6 +224,9 @@ def make_contractions(basis_dict, atoms, coords, coord_types):
                 f"got {coord_types}"
             )
         coord_types = [coord_types] * num_coord_types
+    elif isinstance(coord_types, (list, tuple)):
+        # work on a copy: the entries are consumed below and the caller's sequence must stay intact
+        coord_types = list(coord_types)
 
     if len(coord_types) != num_coord_types:
         raise ValueError(
